@@ -98,6 +98,9 @@ func TestSim(t *testing.T) {
 	simrt.DebugDraws = os.Getenv("SIM_DEBUGDRAWS") != ""
 	refbt.WireLog = os.Getenv("SIM_WIRELOG") != ""
 	simnet.Debug = os.Getenv("SIM_NETDEBUG") != ""
+	if os.Getenv("SIM_RAINLOG") == "debug" {
+		logger.SetDebug()
+	}
 	if os.Getenv("SIM_RAINLOG") == "" {
 		torrent.DisableLogging()
 		if plan.Scenario == "corrupt" {
